@@ -152,6 +152,14 @@ def r2_refresh_first(c, facts):
             c.ok(R, {'refresh': name + ' on the stale path'})
         else:
             c.bad(R, 'refresh:%s-not-on-stale-path' % name, 'refresh(): %s is not on the stale path' % name)
+    # once the state is stale a refresh does re-evaluate: no successful return from the stale edge that passes neither the
+    # evaluation loop nor the collection of diagnostics (a throttle, a debounce, a "too soon" shortcut answer the request
+    # that follows from the old trees against the new text)
+    need = {diags[0][0]} | {it0[0] for it0 in P.call_blocks(rf, 'HashMap::iter_mut', 'HashMap::values_mut')}
+    if stale_t is not None and P.success_return_reachable(rf, stale_t, need):
+        c.bad(R, 'refresh:stale-path-without-evaluation', 'refresh() can return successfully on the stale path without having re-evaluated the folders: the request it precedes is answered from trees of an older text, while positions are converted with the new one')
+    else:
+        c.ok(R, {'refresh': 'the stale path always re-evaluates'})
     # every folder is evaluated: Folder::eval inside a loop over folders.iter_mut()
     it = P.call_blocks(rf, 'HashMap::iter_mut', 'HashMap::values_mut')
     eb = evals[0][0]
